@@ -217,12 +217,15 @@ func shortFunc(fn string) string {
 // (child process crash output, net/http "panic serving" log).
 func stackTextSite(text string) (top, repo string) {
 	lines := strings.Split(text, "\n")
-	start := 0
+	start := -1
 	for i, ln := range lines {
 		if strings.HasPrefix(ln, "goroutine ") && strings.Contains(ln, "[running]") {
 			start = i + 1
 			break
 		}
+	}
+	if start < 0 {
+		return "unknown", "" // no stack of a running goroutine in the text (output cut off)
 	}
 	for _, ln := range lines[start:] {
 		if ln == "" {
@@ -237,6 +240,11 @@ func stackTextSite(text string) (top, repo string) {
 		fn := ln
 		if i := strings.LastIndexByte(fn, '('); i > 0 {
 			fn = fn[:i]
+		} else {
+			continue // not a "function(args)" line
+		}
+		if strings.ContainsAny(fn, " =\"") {
+			continue // a log line that got between the stack lines
 		}
 		if fn == "panic" || strings.HasPrefix(fn, "runtime.") || strings.HasPrefix(fn, "runtime/") || strings.HasPrefix(fn, "net/http.(*conn).serve") {
 			continue
@@ -353,6 +361,12 @@ func (h *harness) one(e *entry, st *stats, in input) {
 		st.Rejected++
 	}
 	st.mu.Unlock()
+	if in.valid && o.err != nil {
+		// once more before calling the harness broken (a loaded machine can time a request out)
+		if o2 := guarded(func() error { return e.call(in) }, watchdog); !o2.panicked && !o2.timeout && o2.err == nil {
+			o = o2
+		}
+	}
 	if in.valid && o.err != nil {
 		h.r.Fatalf("entry %s: the valid instance %q is rejected (%v): mutations of it would be trivially rejected", e.name, in.seed, o.err)
 	}
